@@ -34,3 +34,6 @@ package influxql
 //@   frameprops C14 C17
 //@   ensures [C11] @textanchors result1 ==> (local(start).Op == 9 && local(end).Op == 10)
 //@   ensures [C11] @concat result1 ==> local(re).Op == 18
+// the empty literal list stands for the empty string: it is returned for /^$/ only, never for an
+// expression that matches nothing (empty character class)
+//@   ensures [C11] @emptylist (result1 && len(result0) == 0) ==> len(local(re).Sub) == 0
